@@ -10,5 +10,9 @@ func init() {
 			Stubs:       []string{"as harness executeTxs"},
 			Assumptions: []string{"goroutines switch only at synchronisation operations: sound for data-race-free code"},
 			Outside:     []string{"configurations other than: parent holds the key, first transaction writes or removes it, 2 execution cores (the full configuration space is the executeTxs harness)", "schedules beyond the preemption bound"}},
+		{Name: "three", Pkg: "chain", Files: []string{"chain/common.go", "chain/c01_parallel.go"}, Entry: "VerifC01Three", Sched: true, Preempt: [2]int{1, 1}, ThoroughOnly: true,
+			Stubs:       []string{"as harness executeTxs"},
+			Assumptions: []string{"goroutines switch only at synchronisation operations: sound for data-race-free code"},
+			Outside:     []string{"three-transaction blocks other than writer / reader with the same sponsor / writer-or-remover with another sponsor"}},
 	}})
 }
